@@ -178,6 +178,17 @@ def bundled_shard(args):
                 for sig, exp, obs in r:
                     part.violation(sig + " [unlisted neighbour]", {"kind": "c12iban", "country": country,
                                                                    "code": nb}, exp, obs)
+    # pairs that differ from a listed one only by case or white-space are NOT listed
+    for key in keys[:: max(1, len(keys) // 40)]:
+        for cc2, k2 in ((country.lower(), key), (country, key.lower()), (" " + country, key),
+                        (country, key[:1] + " " + key[1:]), (country, key + "\n"), (country + " ", key)):
+            if (cc2, k2) in index or (cc2, k2) == (country, key):
+                continue
+            part.count(("key", cc2, k2))
+            part.stat("differently_spelled_pairs")
+            for sig, exp, obs in check_key(index, cc2, k2):
+                part.violation(sig + " [differently spelled pair]", {"kind": "c12key", "country": cc2,
+                                                                    "code": k2}, exp, obs)
     bics = sorted(b for b, es in bic_index.items() if any(e.get("country_code") == country for e in es))
     for b in bics:
         part.count(("bic", b), foreign=True)
